@@ -296,7 +296,9 @@ draw_extreme (Rng& r)
             case 5: return (S) -1;
             case 6: return (S) 1;
             case 7: case 8: case 9: return (S) r.range (-3, 3);
-            default: return (S) r.range ((int64_t) L::lowest (), (int64_t) L::max ());
+            default:
+                if constexpr (sizeof (S) == 8) return (S) r.u64 (); // (Rng::range would overflow on the full int64 span)
+                else return (S) r.range ((int64_t) L::lowest (), (int64_t) L::max ());
         }
     }
     else
@@ -489,7 +491,7 @@ make_rand_table (uint64_t nq, uint64_t nt)
 #define X(T) add_rand<T, Rn> (t, nq, nt);
     C13_TYPES (X)
 #undef X
-    t.seal ();
+    t.seal (true);
     return t;
 }
 static const VarTable&
